@@ -144,6 +144,18 @@ std::string damage(std::string d, const Plan & plan, Outcome & out)
         out.ctr["fault_field_overwritten"]++;
       }
     }
+    else if (op.k == "rep") {
+      // a short run of bytes written over and over (a stuck write): very long lines / fields, up to ~700 kB
+      size_t p = (size_t)(op.arg(0) % (i64)n), l = std::min<size_t>((size_t)std::max<i64>(1, op.arg(1)), n - p);
+      std::string blk = d.substr(p, l); size_t nl = blk.find('\n'); if (nl != std::string::npos) blk = blk.substr(0, nl);
+      if (!blk.empty()) {
+        size_t times = std::min<size_t>((size_t)std::max<i64>(1, op.arg(2)), 700000 / blk.size());
+        std::string ins; ins.reserve(times * blk.size());
+        for (size_t i = 0; i < times; i++) ins += blk;
+        d.insert(p, ins);
+        out.ctr["fault_repeated_block"]++;
+      }
+    }
     else if (op.k == "empty") { d.clear(); out.ctr["fault_empty_file"]++; }
   }
   return d;
@@ -267,8 +279,9 @@ Outcome run_files_ga(const Plan & plan, const RunCtx & ctx)
   i64 method = 0, set = 0, via = 0;
   for (const Op & op : plan.ops) if (op.k == "src") { method = op.arg(0); set = op.arg(1); via = op.arg(2); }
   bool pdf = method == 1;
-  std::string valid = ga_file(SETS[(size_t)(set % 3)], pdf ? "tab_pdf.data" : "tab_ocdf.data");
-  if (pdf && set % 4 == 3) valid = read_real(repo_dir() + "/resources/data/dbd_gA/Test/g0/tab_pdf.data");
+  // sets 0-2: small/medium/steep; 3: the shipped Test table (p.d.f.) or small; 4, 5: the smallest tables the format allows (2 and 3 samples)
+  std::string valid = ga_file(set == 4 ? "tiny2" : (set == 5 ? "tiny3" : SETS[(size_t)(set % 3)]), pdf ? "tab_pdf.data" : "tab_ocdf.data");
+  if (pdf && set == 3) valid = read_real(repo_dir() + "/resources/data/dbd_gA/Test/g0/tab_pdf.data");
   std::string bad = damage(valid, plan, out);
   tr.adds(bad);
   bool through_generator = !pdf && (via % 2 == 1);
@@ -303,6 +316,10 @@ Outcome run_files_ga(const Plan & plan, const RunCtx & ctx)
   out.ctr[ok ? "loader_accepted" : "loader_raised_error"]++;
   out.ctr["read_calls"] += reads;
   std::string sigctx = std::string(pdf ? "ga-pdf " : "ga-ocdf ") + fault_kinds(plan);
+  if (bad == valid && fs::stats().read_eio == 0) {
+    out.ctr["undamaged_tables_loaded"]++;
+    if (!ok && check) out.fail("C15", "valid-table-rejected", "valid-table-rejected " + std::string(pdf ? "ga-pdf" : "ga-ocdf"), "the table as the writer produced it (set " + std::to_string(set) + ") was refused: " + err);
+  }
   check_resources(out, check, "dbd_gA::initialize", lim, bytes, single, reads, sigctx);
   if (ok) {
     // use what was loaded: memory safety of the sampler over a table that passed the loader's checks
@@ -444,6 +461,7 @@ Outcome run_files_lists(const Plan & plan, const RunCtx & ctx)
 void gen_faults(Rng & r, Plan & p, size_t approx_size, bool allow_inflight)
 {
   int nf = r.chance(0.7) ? 1 : 2;
+  if (r.chance(0.04)) nf = 0; // the control: the writer's file as it is must load and be usable
   for (int i = 0; i < nf; i++) {
     Op o; u64 d = r.below(100);
     // header lines, counts and separators live at the front: bias half of the positions there
@@ -454,8 +472,9 @@ void gen_faults(Rng & r, Plan & p, size_t approx_size, bool allow_inflight)
     else if (d < 69) { o.k = "zero"; o.a = {r.chance(0.5) ? (pos / 512) * 512 : pos, r.chance(0.5) ? 512 : r.range(1, 64)}; }
     else if (d < 76) { o.k = "drop"; o.a = {r.chance(0.5) ? (pos / 512) * 512 : pos, r.chance(0.5) ? 512 : r.range(1, 64)}; }
     else if (d < 82) { o.k = "dup"; o.a = {r.chance(0.5) ? (pos / 512) * 512 : pos, r.chance(0.5) ? 512 : r.range(1, 64)}; }
-    else if (d < 89) { o.k = "dropline"; o.a = {(i64)r.below(60)}; }
-    else if (d < 92) { o.k = "dupline"; o.a = {(i64)r.below(60)}; }
+    else if (d < 88) { o.k = "dropline"; o.a = {(i64)r.below(60)}; }
+    else if (d < 91) { o.k = "dupline"; o.a = {(i64)r.below(60)}; }
+    else if (d < 92) { o.k = "rep"; o.a = {(i64)r.below(approx_size + 1), r.range(1, 48), (i64)std::exp(r.unit() * std::log(40000.0)) + 8}; }
     else if (d < 95) { o.k = "tok"; o.a = {(i64)r.below(4000), (i64)r.below(16), (i64)r.chance(0.6)}; }
     else if (d < 98) { o.k = "splice"; o.a = {(i64)r.below(approx_size + 1), (i64)r.below(9), r.chance(0.5) ? r.range(1, 12) : r.range(13, 600), (i64)r.chance(0.6)}; }
     else { o.k = "empty"; }
@@ -489,8 +508,8 @@ Plan gen_files_ga(u64 seed, u64 idx, const RunCtx & ctx)
 {
   Plan p; p.suite = "files-ga"; p.seed = seed; p.idx = idx;
   Rng r(hmix(hmix(seed, hstr("files-ga")), idx));
-  Op s; s.k = "src"; s.a = {(i64)(1 + r.below(2)), (i64)r.below(4), (i64)r.below(2)};
-  size_t sz = s.a[1] % 3 == 0 ? 600 : (s.a[1] % 3 == 1 ? 3300 : 8600);
+  Op s; s.k = "src"; s.a = {(i64)(1 + r.below(2)), (i64)r.below(6), (i64)r.below(2)};
+  size_t sz = s.a[1] >= 4 ? 200 : (s.a[1] % 3 == 0 ? 600 : (s.a[1] % 3 == 1 ? 3300 : 8600));
   if (ctx.tier == "thorough" && idx < 2400) {
     // every truncation offset of the two small tables (ocdf: 529 bytes, pdf: ~700 bytes)
     s.a = {(i64)(1 + idx / 1200), 0, 0};
